@@ -14,6 +14,12 @@
 #include <xercesc/framework/XMLAttr.hpp>
 #include <xercesc/framework/MemBufInputSource.hpp>
 #include <xercesc/framework/Wrapper4InputSource.hpp>
+#include <xercesc/framework/XMLPScanToken.hpp>
+#include <xercesc/framework/XMLEntityDecl.hpp>
+#include <xercesc/util/XMLEntityResolver.hpp>
+#include <xercesc/util/XMLResourceIdentifier.hpp>
+#include <xercesc/validators/DTD/DTDElementDecl.hpp>
+#include <xercesc/sax/Locator.hpp>
 #include <xercesc/parsers/SAXParser.hpp>
 #include <xercesc/parsers/SAX2XMLReaderImpl.hpp>
 #include <xercesc/parsers/XercesDOMParser.hpp>
@@ -52,7 +58,19 @@ static long gDepth = 0;         // open elements (SAX style APIs)
 static bool gInCData = false;   // SAX2: between startCDATA/endCDATA
 static U16 gCDataBuf;
 
+// optional request flags (all false for the old 5-token request)
+static bool gFlagP = false;     // progressive parse (parseFirst / parseNext)
+static bool gFlagR = false;     // entity reference boundaries: R<name> ... r<name>
+static bool gFlagW = false;     // drop ignorable whitespace
+static bool gFlagL = false;     // @line:col on S tokens (sax, sax2)
+static bool gFlagD = false;     // D<name> token for the DOCTYPE
+static const Locator* gLocator = 0;    // given to setDocumentLocator during the current parse
+
+// external entities served from memory: sysid -> bytes (per request)
+static std::map<std::string, std::vector<XMLByte> > gEntTable;
+
 static void resetRecording() {
+    gLocator = 0;
     gErrs.clear();
     gFatalHandlerCalls = 0;
     gEvents.clear();
@@ -132,6 +150,34 @@ static void evEnd(const XMLCh* name) {
     beginToken('E');
     hex4z(gEvents, name);
 }
+// appended to the S token that was just written (flag l)
+static void evLoc() {
+    if (!gFlagL) return;
+    unsigned long long l = 0, c = 0;
+    if (gLocator) {
+        l = (unsigned long long)gLocator->getLineNumber();
+        c = (unsigned long long)gLocator->getColumnNumber();
+    }
+    gEvents += '@';
+    gEvents += std::to_string(l);
+    gEvents += ':';
+    gEvents += std::to_string(c);
+}
+static void evEntStart(const XMLCh* name) {
+    flushText();
+    beginToken('R');
+    hex4z(gEvents, name);
+}
+static void evEntEnd(const XMLCh* name) {
+    flushText();
+    beginToken('r');
+    hex4z(gEvents, name);
+}
+static void evDoctype(const XMLCh* name) {
+    flushText();
+    beginToken('D');
+    hex4z(gEvents, name);
+}
 
 static void recordError(unsigned int code, const XMLCh* domain, XMLErrorReporter::ErrTypes type,
                         XMLFileLoc line, XMLFileLoc col) {
@@ -162,6 +208,14 @@ static void recordError(unsigned int code, const XMLCh* domain, XMLErrorReporter
 class RecSAXParser : public SAXParser {
 public:
     RecSAXParser() : SAXParser() {}
+    // only reached while a DTDHandler is installed (flag d): SAXParser registers itself as the
+    // scanner's DocTypeHandler only then
+    virtual void doctypeDecl(const DTDElementDecl& elemDecl, const XMLCh* const publicId,
+                             const XMLCh* const systemId, const bool hasIntSubset,
+                             const bool hasExtSubset = false) {
+        SAXParser::doctypeDecl(elemDecl, publicId, systemId, hasIntSubset, hasExtSubset);
+        if (gFlagD) evDoctype(elemDecl.getFullName());
+    }
     XH_ERROR_OVERRIDE(SAXParser)
 };
 class RecSAX2Reader : public SAX2XMLReaderImpl {
@@ -225,9 +279,12 @@ public:
         evEnd(elemDecl.getFullName());
         if (gDepth > 0) gDepth--;
     }
-    virtual void endEntityReference(const XMLEntityDecl&) {}
+    virtual void endEntityReference(const XMLEntityDecl& entDecl) {
+        if (gFlagR) evEntEnd(entDecl.getName());
+    }
     virtual void ignorableWhitespace(const XMLCh* const chars, const XMLSize_t length, const bool) {
         if (gDepth <= 0) return;
+        if (gFlagW) return;
         evText(chars, length);
     }
     virtual void resetDocument() {}
@@ -241,22 +298,50 @@ public:
             attrs.push_back(std::make_pair(u16(a->getQName()), u16(a->getValue())));
         }
         evStart(elemDecl.getFullName(), attrs);
+        evLoc();
         if (isEmpty) evEnd(elemDecl.getFullName());   // no endElement call for advanced handlers
         else gDepth++;
     }
-    virtual void startEntityReference(const XMLEntityDecl&) {}
+    virtual void startEntityReference(const XMLEntityDecl& entDecl) {
+        if (gFlagR) evEntStart(entDecl.getName());
+    }
     virtual void XMLDecl(const XMLCh* const, const XMLCh* const, const XMLCh* const, const XMLCh* const) {}
+};
+
+// SAX1: plain handler, installed next to the advanced one only to learn the Locator (flag l) and,
+// as DTDHandler, to make SAXParser listen to the scanner's DocTypeHandler events (flag d)
+class Sax1Aux : public HandlerBase {
+public:
+    virtual void setDocumentLocator(const Locator* const locator) { gLocator = locator; }
 };
 
 // SAX2: content + lexical handler
 class Sax2Handler : public DefaultHandler {
 public:
+    virtual void setDocumentLocator(const Locator* const locator) { gLocator = locator; }
+    static bool reportedEntity(const XMLCh* name) {
+        static const XMLCh dtdName[] = { chOpenSquare, chLatin_d, chLatin_t, chLatin_d, chCloseSquare, chNull };
+        if (!name) return false;
+        if (name[0] == chPercent) return false;              // parameter entity
+        if (XMLString::equals(name, dtdName)) return false;   // external subset
+        return true;
+    }
+    virtual void startEntity(const XMLCh* const name) {
+        if (gFlagR && reportedEntity(name)) evEntStart(name);
+    }
+    virtual void endEntity(const XMLCh* const name) {
+        if (gFlagR && reportedEntity(name)) evEntEnd(name);
+    }
+    virtual void startDTD(const XMLCh* const name, const XMLCh* const, const XMLCh* const) {
+        if (gFlagD) evDoctype(name);
+    }
     virtual void characters(const XMLCh* const chars, const XMLSize_t length) {
         if (gInCData) { if (chars) gCDataBuf.append(chars, length); }
         else evText(chars, length);
     }
     virtual void ignorableWhitespace(const XMLCh* const chars, const XMLSize_t length) {
         if (gDepth <= 0) return;
+        if (gFlagW) return;
         evText(chars, length);
     }
     virtual void startElement(const XMLCh* const, const XMLCh* const, const XMLCh* const qname,
@@ -266,6 +351,7 @@ public:
         for (XMLSize_t i = 0; i < n; i++)
             attrs.push_back(std::make_pair(u16(at.getQName(i)), u16(at.getValue(i))));
         evStart(qname, attrs);
+        evLoc();
         gDepth++;
     }
     virtual void endElement(const XMLCh* const, const XMLCh* const, const XMLCh* const qname) {
@@ -325,15 +411,19 @@ static void walkNodeOpen(DOMNode* n, bool& descend) {
         evPI(n->getNodeName(), n->getNodeValue());
         break;
     case DOMNode::ENTITY_REFERENCE_NODE:
+        if (gFlagR) evEntStart(n->getNodeName());
         descend = true;
         break;
     case DOMNode::DOCUMENT_TYPE_NODE:
+        if (gFlagD) evDoctype(n->getNodeName());
+        break;
     default:
         break;
     }
 }
 static void walkNodeClose(DOMNode* n) {
     if (n->getNodeType() == DOMNode::ELEMENT_NODE) evEnd(n->getNodeName());
+    else if (gFlagR && n->getNodeType() == DOMNode::ENTITY_REFERENCE_NODE) evEntEnd(n->getNodeName());
 }
 // openParent: the parser's current parent node when the parse stopped.  After a fatal error the
 // elements on the path document -> openParent were never closed by the scanner (no endElement
@@ -374,10 +464,38 @@ static void walkDocument(DOMDocument* doc, const DOMNode* openParent) {
 // ------------------------------------------------------------------------------------------------
 //  parser cache
 // ------------------------------------------------------------------------------------------------
+// ------------------------------------------------------------------------------------------------
+//  external entities from memory.  The scanner hands over the system id literal as written in the
+//  document; an id that is not in the request's table gives 0 = the library's default resolution
+//  (which is also what happens when no resolver is installed at all).
+// ------------------------------------------------------------------------------------------------
+class MemEntityResolver : public XMLEntityResolver {
+public:
+    virtual InputSource* resolveEntity(XMLResourceIdentifier* resourceIdentifier) {
+        if (!resourceIdentifier || gEntTable.empty()) return 0;
+        const XMLCh* sys = resourceIdentifier->getSystemId();
+        if (!sys) return 0;
+        std::string id = narrow(sys);
+        std::map<std::string, std::vector<XMLByte> >::const_iterator it = gEntTable.find(id);
+        if (it == gEntTable.end()) {
+            size_t slash = id.rfind('/');
+            if (slash == std::string::npos) return 0;
+            it = gEntTable.find(id.substr(slash + 1));
+            if (it == gEntTable.end()) return 0;
+        }
+        static const XMLByte dummy = 0;
+        const std::vector<XMLByte>& b = it->second;
+        // the table owns the bytes and outlives the parse; the reader manager adopts the source
+        return new MemBufInputSource(b.empty() ? &dummy : b.data(), b.size(), it->first.c_str(), false);
+    }
+};
+
 static CountingErrorHandler gSaxErrHandler;
 static CountingDOMErrorHandler gDomErrHandler;
 static AdvHandler gAdvHandler;
+static Sax1Aux gSax1Aux;
 static Sax2Handler gSax2Handler;
+static MemEntityResolver gEntResolver;
 
 static std::map<std::string, RecSAXParser*> gSax;
 static std::map<std::string, RecSAX2Reader*> gSax2;
@@ -402,6 +520,7 @@ static RecSAXParser* getSax(const std::string& key, const XMLCh* scanner, bool n
     p->setValidationScheme(SAXParser::Val_Never);
     p->setErrorHandler(&gSaxErrHandler);
     p->installAdvDocHandler(&gAdvHandler);
+    p->setXMLEntityResolver(&gEntResolver);
     gSax[key] = p;
     return p;
 }
@@ -418,6 +537,7 @@ static RecSAX2Reader* getSax2(const std::string& key, const XMLCh* scanner, bool
     p->setContentHandler(&gSax2Handler);
     p->setLexicalHandler(&gSax2Handler);
     p->setErrorHandler(&gSax2Handler);
+    p->setXMLEntityResolver(&gEntResolver);
     gSax2[key] = p;
     return p;
 }
@@ -431,6 +551,7 @@ static RecDOMParser* getDom(const std::string& key, const XMLCh* scanner, bool n
     p->setValidationScheme(XercesDOMParser::Val_Never);
     p->setCreateEntityReferenceNodes(false);
     p->setErrorHandler(&gSaxErrHandler);
+    p->setXMLEntityResolver(&gEntResolver);
     gDom[key] = p;
     return p;
 }
@@ -446,6 +567,7 @@ static RecLSParser* getLs(const std::string& key, const XMLCh* scanner, bool ns)
     c->setParameter(XMLUni::fgDOMValidateIfSchema, false);
     c->setParameter(XMLUni::fgDOMEntities, false);
     c->setParameter(XMLUni::fgDOMErrorHandler, (const void*)&gDomErrHandler);
+    c->setParameter(XMLUni::fgXercesEntityResolver, (const void*)&gEntResolver);
     gLs[key] = p;
     return p;
 }
@@ -475,25 +597,75 @@ template <class F> static void guarded(F f) {
     }
 }
 
-static std::string doParse(const std::string& api, const std::string& scn, const std::string& nsS,
-                           const std::string& hex) {
+static bool validHexDoc(const std::string& hex) {
+    if (hex == "-") return true;
+    if (hex.size() % 2) return false;
+    for (size_t i = 0; i < hex.size(); i++)
+        if (!isxdigit((unsigned char)hex[i])) return false;
+    return true;
+}
+static void unhex(const std::string& hex, std::vector<XMLByte>& bytes) {
+    bytes.clear();
+    if (hex == "-") return;
+    bytes.resize(hex.size() / 2);
+    for (size_t i = 0; i < bytes.size(); i++)
+        bytes[i] = (XMLByte)(hexval(hex[2 * i]) * 16 + hexval(hex[2 * i + 1]));
+}
+
+// progressive parse: parseFirst, then parseNext until it reports the end (or a failure)
+template <class P, class S> static void progressive(P* p, const S& src, XMLPScanToken& token, bool& started) {
+    started = p->parseFirst(src, token);
+    if (!started) return;
+    while (p->parseNext(token)) {}
+}
+
+// a[1..4] = api scanner ns hexdoc, a[5] = flags (optional), a[6..] = sysid=hexbytes (optional)
+static std::string doParse(const std::vector<std::string>& a) {
+    const std::string& api = a[1];
+    const std::string& scn = a[2];
+    const std::string& nsS = a[3];
+    const std::string& hex = a[4];
     const XMLCh* scanner = scannerName(scn);
     if (!scanner || (nsS != "0" && nsS != "1")) return "bad-request";
     if (api != "sax" && api != "sax2" && api != "dom" && api != "ls") return "bad-request";
-    if (hex != "-") {
-        if (hex.size() % 2) return "bad-request";
-        for (size_t i = 0; i < hex.size(); i++)
-            if (!isxdigit((unsigned char)hex[i])) return "bad-request";
+    if (!validHexDoc(hex)) return "bad-request";
+
+    bool fP = false, fR = false, fW = false, fL = false, fD = false;
+    if (a.size() > 5 && a[5] != "-") {
+        if (a[5].empty()) return "bad-request";
+        for (size_t i = 0; i < a[5].size(); i++) {
+            switch (a[5][i]) {
+            case 'p': fP = true; break;
+            case 'r': fR = true; break;
+            case 'w': fW = true; break;
+            case 'l': fL = true; break;
+            case 'd': fD = true; break;
+            default: return "bad-request";
+            }
+        }
     }
+    std::map<std::string, std::vector<XMLByte> > table;
+    for (size_t i = 6; i < a.size(); i++) {
+        size_t eq = a[i].rfind('=');
+        if (eq == std::string::npos || eq == 0) return "bad-request";
+        std::string h = a[i].substr(eq + 1);
+        if (h.empty()) h = "-";
+        if (!validHexDoc(h)) return "bad-request";
+        unhex(h, table[a[i].substr(0, eq)]);
+    }
+    if (fP && api == "ls") return "unsupported | - | fh=0";
+
+    gFlagP = fP; gFlagR = fR; gFlagW = fW; gFlagL = fL; gFlagD = fD;
+    gEntTable.swap(table);
+
     const bool ns = nsS == "1";
-    const std::string key = scn + nsS;
+    // r and w change the configuration of the DOM builders: separate parser objects
+    std::string key = scn + nsS;
+    if (fR) key += 'r';
+    if (fW) key += 'w';
 
     std::vector<XMLByte> bytes;
-    if (hex != "-") {
-        bytes.resize(hex.size() / 2);
-        for (size_t i = 0; i < bytes.size(); i++)
-            bytes[i] = (XMLByte)(hexval(hex[2 * i]) * 16 + hexval(hex[2 * i + 1]));
-    }
+    unhex(hex, bytes);
     static const XMLByte dummy = 0;
     const XMLByte* data = bytes.empty() ? &dummy : bytes.data();
 
@@ -503,18 +675,43 @@ static std::string doParse(const std::string& api, const std::string& scn, const
     if (api == "sax") {
         RecSAXParser* p = 0;
         guarded([&] { p = getSax(key, scanner, ns); });
-        if (p) guarded([&] {
-            MemBufInputSource src(data, bytes.size(), "xh", false);
-            p->parse(src);
-        });
+        if (p) {
+            // the plain handler is only needed for the locator (l) / to enable DOCTYPE events (d)
+            guarded([&] {
+                p->setDocumentHandler(fL ? &gSax1Aux : 0);
+                p->setDTDHandler(fD ? &gSax1Aux : 0);
+            });
+            XMLPScanToken token;
+            bool started = false;
+            guarded([&] {
+                MemBufInputSource src(data, bytes.size(), "xh", false);
+                if (fP) progressive(p, src, token, started);
+                else p->parse(src);
+            });
+            if (started) {
+                std::string saved = gExcToken;
+                guarded([&] { p->parseReset(token); });
+                if (!saved.empty()) gExcToken = saved;
+            }
+        }
         flushText();
     } else if (api == "sax2") {
         RecSAX2Reader* p = 0;
         guarded([&] { p = getSax2(key, scanner, ns); });
-        if (p) guarded([&] {
-            MemBufInputSource src(data, bytes.size(), "xh", false);
-            p->parse(src);
-        });
+        if (p) {
+            XMLPScanToken token;
+            bool started = false;
+            guarded([&] {
+                MemBufInputSource src(data, bytes.size(), "xh", false);
+                if (fP) progressive(p, src, token, started);
+                else p->parse(src);
+            });
+            if (started) {
+                std::string saved = gExcToken;
+                guarded([&] { p->parseReset(token); });
+                if (!saved.empty()) gExcToken = saved;
+            }
+        }
         if (gInCData) { evCData(gCDataBuf.data(), gCDataBuf.size()); gInCData = false; }
         flushText();
     } else if (api == "dom") {
@@ -522,11 +719,20 @@ static std::string doParse(const std::string& api, const std::string& scn, const
         guarded([&] { p = getDom(key, scanner, ns); });
         if (p) {
             guarded([&] {
+                p->setCreateEntityReferenceNodes(fR);
+                p->setIncludeIgnorableWhitespace(!fW);
+            });
+            XMLPScanToken token;
+            bool started = false;
+            guarded([&] {
                 MemBufInputSource src(data, bytes.size(), "xh", false);
-                p->parse(src);
+                if (fP) progressive(p, src, token, started);
+                else p->parse(src);
             });
             std::string saved = gExcToken;
             guarded([&] { walkDocument(p->getDocument(), p->openParent()); });
+            // parseReset hands the document to the pool (getDocument() is 0 afterwards): walk first
+            if (started) guarded([&] { p->parseReset(token); });
             guarded([&] { p->resetDocumentPool(); });
             if (!saved.empty()) gExcToken = saved;
         }
@@ -534,6 +740,11 @@ static std::string doParse(const std::string& api, const std::string& scn, const
         RecLSParser* p = 0;
         guarded([&] { p = getLs(key, scanner, ns); });
         if (p) {
+            guarded([&] {
+                DOMConfiguration* c = p->getDomConfig();
+                c->setParameter(XMLUni::fgDOMEntities, fR);
+                c->setParameter(XMLUni::fgDOMElementContentWhitespace, !fW);
+            });
             guarded([&] {
                 MemBufInputSource* src = new MemBufInputSource(data, bytes.size(), "xh", false);
                 Wrapper4InputSource wrap(src, true);    // adopts src
@@ -623,7 +834,7 @@ int main() {
         std::string r = "bad-request";
         try {
             std::vector<std::string> a = splitWs(line);
-            if (a.size() == 5 && a[0] == "parse") r = doParse(a[1], a[2], a[3], a[4]);
+            if (a.size() >= 5 && a[0] == "parse") r = doParse(a);
             else if (a.size() == 1 && a[0] == "chartab") r = doCharTab(false);
             else if (a.size() == 1 && a[0] == "chartab11") r = doCharTab(true);
             else if (a.size() == 1 && a[0] == "errsev") r = doErrSev();
